@@ -41,7 +41,7 @@ def run(chk):
                 'replayed on the real parser in both modes; corpus, truncations / single-closer deletions / mutations of '
                 'documents and random strings run through the real parser are validated by TLC. A case is a source string.')
     sc = [(S.SC + S.SC_EXTRA, 3 if quick else 4), (S.ST, 2 if quick else 3)]
-    for k in ('env', 'args', 'math', 'verb', 'item', 'sig'):
+    for k in ('env', 'args', 'math', 'verb', 'item', 'sig', 'names'):
         sc.append((S.SUB[k], 3 if quick else 5))
     docs = S.corpus_sources()
     extra = list(docs) + S.regression_inputs(('C06', 'C07', 'C08'))
